@@ -161,6 +161,13 @@ DepthsOf(slots, i, acc0) ==
               Append(acc, IF k = 1 \/ p < 1 \/ p >= k THEN 0 ELSE acc[p] + 1),
             acc0, i, Len(slots))
 
+\* label string of every dumped slot along the BFS tree
+PathsOf(slots) ==
+  IterRange(LAMBDA acc, k :
+              LET p == slots[k].par IN
+              Append(acc, IF k = 1 \/ p < 1 \/ p >= k THEN <<>> ELSE Append(acc[p], slots[k].lab)),
+            <<>>, 1, Len(slots))
+
 RECURSIVE Pow2AtLeast(_, _)
 Pow2AtLeast(n, p) == IF p >= n THEN p ELSE Pow2AtLeast(n, 2 * p)
 
@@ -343,6 +350,22 @@ TableFails(s, a, ev) ==
      \* leftmost kinds being at the root and the head of the chain).  An implementation whose
      \* fail links differ but behave alike is accepted.
   \cup Chk("table.equivalent", TP, equiv)
+     \* C06 for every haystack: an edge that is not a trie edge (two states sharing a BASE, an
+     \* unsanitised CHECK ...) makes the search report, after reading path(u).c, the outputs of a
+     \* state v with a different string; each such output must still be a suffix of what was read
+  \cup Chk("table.reports_only_occurrences", {"C06"},
+           outsRanked /\ oposOK =>
+             LET paths == PathsOf(slots) IN
+             \A k \in 1..Len(ev.extra) :
+               LET e == ev.extra[k] IN
+               (e.toidx >= 1 /\ e.toidx <= n /\ e.from >= 1 /\ e.from <= n) =>
+                 LET w  == Append(paths[e.from], e.lab)
+                     ch == RealChain(a, ev.outs, slots[e.toidx].opos)
+                     hd == IF lm THEN HeadOf(ch) ELSE ch IN
+                 \A x \in 1..Len(hd) :
+                   \E j \in 1..Len(a.pats) :
+                     /\ ValStr(a, j) = hd[x][2] /\ Len(a.bpats[j]) = hd[x][1]
+                     /\ IsSuffixOf(a.pats[j], w))
      \* output lists of the standard automaton are canonical (patterns that are suffixes, longest first)
   \cup Chk("table.outputs_exact", (IF lm THEN {} ELSE TP) \cup {"C06"}, iso /\ outsRanked /\ oposOK => outsOK)
      \* C08 (relational): the byte-wise twin built from the UTF-8 bytes of the same patterns and the
